@@ -137,6 +137,17 @@ def mutants(rng, a):
         m.sval = m.sval[:i] + bytes([(m.sval[i] % 255) + 1]) + m.sval[i + 1:]
     with_edit('string-byte', str_byte)
 
+    def str_raw(ns):
+        m = pick(ns, lambda q: q.kind in 'sw' and not q.ref)
+        m.kind = 'w' if m.kind == 's' else 's'
+    with_edit('string<->raw', str_raw)
+
+    def raw_byte(ns):
+        m = pick(ns, lambda q: q.kind == 'w' and q.sval)
+        i = rng.randrange(len(m.sval))
+        m.sval = m.sval[:i] + bytes([(m.sval[i] % 255) + 1]) + m.sval[i + 1:]
+    with_edit('raw-byte', raw_byte)
+
     def str_len(ns):
         m = pick(ns, lambda q: q.kind == 's')
         m.sval = m.sval + b'x'
@@ -270,6 +281,10 @@ def run_shard(shard_prop, bins, workdir, tier):
             # number-only trees: the tolerance boundary is where Compare is subtle
             a = Node('a')
             a.kids = [Node.num(treegen.hostile_double(rng, True)) for _ in range(rng.randrange(1, 5))]
+        # raw items take part in comparison like strings (byte equality), but are a type of their own
+        for n in all_nodes(a):
+            if n.kind == 's' and not n.ref and rng.random() < 0.15:
+                n.kind = 'w'
         ops = ['build 1 ' + to_tn(a)]
         exp = {}
         ms = mutants(rng, a)
